@@ -298,6 +298,15 @@ class FortranEngine:
                 self.iterations[t] = iteration
                 solved[i] = False
 
+            # `t` is out of bounds or cannot accommodate the model's lags and
+            # leads (as in `_evaluate()`)
+            elif error_code in (11, 12, 13, 14):
+                raise IndexError(
+                    f'Position `t` ({t}) cannot accommodate the lags ({self.lags}) '
+                    f'and leads ({self.leads}) of the current model instance, '
+                    f'which has {len(self.span)} period(s) in its span'
+                )
+
             # Any uncaught errors
             else:
                 raise FortranEngineError(
@@ -451,6 +460,15 @@ class FortranEngine:
 
         elif error_code == 22 and errors == 'skip':
             status = SolutionStatus.SKIPPED.value
+
+        # `t` is out of bounds or cannot accommodate the model's lags and leads
+        # (as in `_evaluate()`)
+        elif error_code in (11, 12, 13, 14):
+            raise IndexError(
+                f'Position `t` ({t}) cannot accommodate the lags ({self.lags}) '
+                f'and leads ({self.leads}) of the current model instance, '
+                f'which has {len(self.span)} period(s) in its span'
+            )
 
         else:
             raise FortranEngineError(
